@@ -399,7 +399,15 @@ func (f *frame) binopTerm(op token.Token, a, b TV, rs string, opndTy types.Type,
 			}
 			return "(ishr " + a.T + " " + bt + ")"
 		case token.AND:
-			return "(iand " + a.T + " " + bt + ")"
+			if x, ok1 := parseIntLit(a.T); ok1 {
+				if y, ok2 := parseIntLit(bt); ok2 && x >= 0 && y >= 0 {
+					return intLit(x & y)
+				}
+			}
+			t := "(iand " + a.T + " " + bt + ")"
+			// 0 <= x&y <= y for y >= 0 (and symmetrically)
+			vc.assert(fmt.Sprintf("(and (=> (>= %s 0) (and (>= %s 0) (<= %s %s))) (=> (>= %s 0) (and (>= %s 0) (<= %s %s))))", bt, t, t, bt, a.T, t, t, a.T))
+			return t
 		case token.OR:
 			return "(ior " + a.T + " " + bt + ")"
 		case token.XOR:
@@ -481,8 +489,26 @@ func (f *frame) ifaceEq(a, b string) string {
 	return fmt.Sprintf("(or (= %s %s) (and (= (i_tag %s) 0) (= (i_tag %s) 0)))", a, b, a, b)
 }
 
+// strAxioms emits the quantified axioms of the string functions once.
+func (vc *VC) strAxioms() {
+	if vc.funcsSeen["straxioms"] {
+		return
+	}
+	vc.funcsSeen["straxioms"] = true
+	vc.assert("(forall ((s Str) (lo Int) (hi Int)) (! (=> (and (<= 0 lo) (<= lo hi) (<= hi (slen s))) (= (slen (ssub s lo hi)) (- hi lo))) :pattern ((ssub s lo hi))))")
+	vc.assert("(forall ((s Str) (lo Int) (hi Int) (i Int)) (! (=> (and (<= 0 lo) (<= lo hi) (<= hi (slen s)) (<= 0 i) (< i (- hi lo))) (= (sbyte (ssub s lo hi) i) (sbyte s (+ lo i)))) :pattern ((sbyte (ssub s lo hi) i))))")
+	vc.assert("(forall ((a Str) (b Str)) (! (= (slen (sconcat a b)) (+ (slen a) (slen b))) :pattern ((sconcat a b))))")
+	vc.assert("(forall ((a Str) (b Str) (i Int)) (! (= (sbyte (sconcat a b) i) (ite (< i (slen a)) (sbyte a i) (sbyte b (- i (slen a))))) :pattern ((sbyte (sconcat a b) i))))")
+	vc.assert("(forall ((s Str)) (! (and (>= (slen s) 0) (= (= (slen s) 0) (= s str_empty))) :pattern ((slen s))))")
+	vc.assert("(forall ((s Str)) (! (= (ssub s 0 (slen s)) s) :pattern ((ssub s 0 (slen s)))))")
+}
+
 func (f *frame) strConcat(a, b string) string {
 	vc := f.vc
+	if f.boundDepth > 0 {
+		vc.strAxioms()
+		return "(sconcat " + a + " " + b + ")"
+	}
 	t := vc.define("cat", "Str", "(sconcat "+a+" "+b+")")
 	vc.assert(fmt.Sprintf("(= (slen %s) (+ (slen %s) (slen %s)))", t, a, b))
 	vc.strFacts(t)
@@ -494,9 +520,16 @@ func (f *frame) strConcat(a, b string) string {
 
 func (f *frame) strSub(s, lo, hi string) string {
 	vc := f.vc
+	if f.boundDepth > 0 {
+		vc.strAxioms()
+		return "(ssub " + s + " " + lo + " " + hi + ")"
+	}
 	t := vc.define("sub", "Str", "(ssub "+s+" "+lo+" "+hi+")")
 	vc.assert(fmt.Sprintf("(=> (and (<= 0 %s) (<= %s %s) (<= %s (slen %s))) (= (slen %s) (- %s %s)))", lo, lo, hi, hi, s, t, hi, lo))
 	vc.strFacts(t)
+	if lo == "0" {
+		vc.assert(fmt.Sprintf("(=> (= %s (slen %s)) (= %s %s))", hi, s, t, s))
+	}
 	if f.eng().opts.StrBytes {
 		vc.assert(fmt.Sprintf("(forall ((i Int)) (! (=> (and (<= 0 i) (< i (- %s %s))) (= (sbyte %s i) (sbyte %s (+ %s i)))) :pattern ((sbyte %s i))))", hi, lo, t, s, lo, t))
 	}
@@ -547,6 +580,8 @@ func (f *frame) unop(x *ssa.UnOp, st *bstate) {
 
 // loadFacts: representation invariants of loaded values (guarded by alive)
 func (f *frame) loadFacts(st *bstate, tv TV) {
+	f.noInvAssume = true
+	defer func() { f.noInvAssume = false }()
 	for _, fact := range f.wfFacts(tv.T, tv.Ty, st.alloc, 1) {
 		f.assume(st, fact)
 	}
@@ -776,6 +811,8 @@ func (f *frame) typeAssert(x *ssa.TypeAssert, st *bstate) {
 }
 
 func (f *frame) assumeWf(st *bstate, cond string, tv TV) {
+	f.noInvAssume = true
+	defer func() { f.noInvAssume = false }()
 	for _, fact := range f.wfFacts(tv.T, tv.Ty, st.alloc, 1) {
 		f.assume(st, implies(cond, fact))
 	}
@@ -862,6 +899,9 @@ func (f *frame) convert(x *ssa.Convert, st *bstate) {
 // bytesToStr: string(b) — a Str term that is a function of the row contents.
 func (f *frame) bytesToStr(st *bstate, s string) string {
 	vc := f.vc
+	if f.boundDepth > 0 {
+		cfail("string(bytes) conversion under a quantifier or in a spec body is not supported")
+	}
 	es := bvSort(8)
 	fn := vc.declareFun("str_of_bytes", []string{arr1(es), "Int", "Int"}, "Str")
 	row := sel(vc.comp(st, compMem(es), arr2(es)), "(s_base "+s+")")
